@@ -123,10 +123,35 @@ Definition c_U128 := c_uint 128 2.
 Definition c_U256 := c_uint 256 4.
 Definition c_U512 := c_uint 512 8.
 
-(* Vec<T>:  (self.len() as u32).encode; each item  /  u32 length, then that many items *)
+(* Vec<T>:  (self.len() as u32).encode; each item  /  u32 length, then that many items.
+   The decoding loop runs [length] times ("for _ in 0..length"); it is written over the binary
+   representation of the count and stops at the first failure, so that a nonsensical length
+   read from a corrupted buffer costs the model what it costs the implementation (which fails
+   at the first out-of-bounds read) and not 2^32 steps. *)
+Definition many_step {A} (d : bytes -> nat -> res (A * nat)) (b : bytes)
+           (s : res (list A * nat)) : res (list A * nat) :=
+  do ao <- s; do x <- d b (snd ao); Ok (fst x :: fst ao, snd x).
+
+Fixpoint iter_ok {St} (p : positive) (f : res St -> res St) (s : res St) : res St :=
+  if is_ok s then
+    match p with
+    | xH => f s
+    | xO p' => iter_ok p' f (iter_ok p' f s)
+    | xI p' => f (iter_ok p' f (iter_ok p' f s))
+    end
+  else s.
+
+Definition dec_many {A} (d : bytes -> nat -> res (A * nat)) (n : N) (b : bytes) (o : nat)
+  : res (list A * nat) :=
+  do r <- match n with
+          | N0 => Ok ([], o)
+          | Npos p => iter_ok p (many_step d b) (Ok ([], o))
+          end;
+  Ok (rev (fst r), snd r).
+
 Definition c_vec {A} (c : codec A) : codec (list A) := {|
   enc := fun xs => be 4 (N.of_nat (length xs)) ++ flat_map (enc c) xs;
-  dec := fun b o => do r <- dec c_u32 b o; dec_arr (dec c) (N.to_nat (fst r)) b (snd r);
+  dec := fun b o => do r <- dec c_u32 b o; dec_many (dec c) (fst r) b (snd r);
   wf := fun xs => (N.of_nat (length xs) <? 2 ^ 32) && forallb (wf c) xs |}.
 
 (* Vec<u8>, BytesED *)
